@@ -8,6 +8,7 @@ import (
 
 	"sigs.k8s.io/kustomize/kustomize/v5/commands/edit/fix"
 	"sigs.k8s.io/kustomize/kyaml/filesys"
+	sigsyaml "sigs.k8s.io/yaml"
 )
 
 // deprecate rewrites (a copy of) a layer's kustomization into deprecated spellings chosen by mask.
@@ -108,6 +109,18 @@ func init() {
 					g := gs[0].(Obj)
 					L.Files["vars.env"] = "EK=ev\nEK2=ev2\n"
 					g["envs"] = []interface{}{"vars.env"}
+				}
+			}
+			// inline strategic-merge patches written on ONE line (JSON / flow style) as often as in block style
+			for _, L := range t.Layers {
+				ps, _ := L.Kust["patches"].([]interface{})
+				for _, p := range ps {
+					po, _ := p.(Obj)
+					if txt, isS := po["patch"].(string); isS && po["target"] == nil && r.Intn(2) == 0 {
+						if j, e := sigsyaml.YAMLToJSON([]byte(txt)); e == nil && !strings.Contains(string(j), "\n") {
+							po["patch"] = string(j)
+						}
+					}
 				}
 			}
 			fs := filesys.MakeFsInMemory()
